@@ -813,69 +813,7 @@ func runC06(c *Ctx) {
 
 	// ---------- R6 decode cursors are threaded ----------
 	{
-		n := 0
-		for _, fn := range p.LibFuncs() {
-			if outermost(fn).Package() != p.Sftp {
-				continue
-			}
-			var decodes []*ssa.Call
-			eachInstr(fn, func(in ssa.Instruction) {
-				if call, ok := in.(*ssa.Call); ok {
-					switch calleeName(&call.Call) {
-					case "unmarshalUint32Safe", "unmarshalUint64Safe", "unmarshalStringSafe", "unmarshalUint32", "unmarshalUint64", "unmarshalString", "unmarshalAttrs", "unmarshalFileStat", "unmarshalExtensionPair":
-						if call.Call.StaticCallee() != nil && call.Call.StaticCallee().Package() == p.Sftp {
-							decodes = append(decodes, call)
-						}
-					}
-				}
-			})
-			if len(decodes) < 2 {
-				continue
-			}
-			for _, d := range decodes {
-				// the rest output
-				restIdx := 1
-				var rest *ssa.Extract
-				for _, r := range *d.Referrers() {
-					if ex, ok := r.(*ssa.Extract); ok && ex.Index == restIdx {
-						rest = ex
-					}
-				}
-				used := false
-				if rest != nil {
-					for _, r := range *rest.Referrers() {
-						switch x := r.(type) {
-						case *ssa.DebugRef:
-						case *ssa.Return:
-							// handing the position back with an error does not continue the decoding
-							last := x.Results[len(x.Results)-1]
-							if isNilConst(last) {
-								used = true
-							}
-						case *ssa.Store:
-							// a spilled result (named results + defer) of an error return
-							used = true
-						default:
-							used = true
-						}
-					}
-				}
-				if used {
-					continue
-				}
-				// dropped: no further decode may be reachable
-				later := reachAvoiding(fn, d, func(in ssa.Instruction) bool {
-					for _, o := range decodes {
-						if ssa.Instruction(o) == in && o != d {
-							return true
-						}
-					}
-					return false
-				}, nil)
-				n++
-				c.check(!later, "R6", "rest of "+calleeName(&d.Call)+" in "+fnName(fn), pos(d), "the remaining bytes are dropped only by the last decode", "the bytes remaining after this decode are dropped although decoding continues: the next field is read from a stale position (e.g. a shadowed buffer variable in a loop)")
-			}
-		}
+		n := checkCursorThreading(c, "R6", nil)
 		c.check(n >= 10, "R6", "last-decode sites", "?", fmt.Sprintf("%d sites", n), fmt.Sprintf("only %d sites", n))
 	}
 }
@@ -1820,4 +1758,93 @@ func isFourZeroBytes(v ssa.Value) bool {
 		return zero
 	}
 	return false
+}
+
+// checkCursorThreading: in every function (of package sftp, or of `only` when given) with two or more calls of the
+// decode primitives, the rest buffer a decode returns is dropped only when no further decode can follow.  A rest that
+// only flows into joins nobody reads (a shadowed `b` in a loop body, the result temporaries of a helper inlined back)
+// is dropped.  Returns the number of dropped rests it examined.
+func checkCursorThreading(c *Ctx, rule string, only map[*ssa.Function]bool) int {
+	p := c.P
+	pos := func(in ssa.Instruction) string { return p.Pos(in.Pos()) }
+	n := 0
+	for _, fn := range p.LibFuncs() {
+		if outermost(fn).Package() != p.Sftp {
+			continue
+		}
+		if only != nil && !only[fn] {
+			continue
+		}
+		var decodes []*ssa.Call
+		eachInstr(fn, func(in ssa.Instruction) {
+			if call, ok := in.(*ssa.Call); ok {
+				switch calleeName(&call.Call) {
+				case "unmarshalUint32Safe", "unmarshalUint64Safe", "unmarshalStringSafe", "unmarshalUint32", "unmarshalUint64", "unmarshalString", "unmarshalAttrs", "unmarshalFileStat", "unmarshalExtensionPair":
+					if call.Call.StaticCallee() != nil && call.Call.StaticCallee().Package() == p.Sftp {
+						decodes = append(decodes, call)
+					}
+				}
+			}
+		})
+		if len(decodes) < 2 {
+			continue
+		}
+		for _, d := range decodes {
+			// the rest output
+			restIdx := 1
+			var rest *ssa.Extract
+			for _, r := range *d.Referrers() {
+				if ex, ok := r.(*ssa.Extract); ok && ex.Index == restIdx {
+					rest = ex
+				}
+			}
+			seen := map[ssa.Value]bool{}
+			var usedV func(v ssa.Value) bool
+			usedV = func(v ssa.Value) bool {
+				if seen[v] {
+					return false
+				}
+				seen[v] = true
+				refs := v.Referrers()
+				if refs == nil {
+					return false
+				}
+				for _, r := range *refs {
+					switch x := r.(type) {
+					case *ssa.DebugRef:
+					case *ssa.Return:
+						// handing the position back with an error does not continue the decoding
+						last := x.Results[len(x.Results)-1]
+						if isNilConst(last) {
+							return true
+						}
+					case *ssa.Phi:
+						// a join counts when somebody reads it
+						if usedV(x) {
+							return true
+						}
+					default:
+						// (a Store is a spilled result — named results + defer — or a variable kept in memory)
+						return true
+					}
+				}
+				return false
+			}
+			if rest != nil && usedV(rest) {
+				continue
+			}
+			// dropped: no further decode may be reachable
+			later := reachAvoiding(fn, d, func(in ssa.Instruction) bool {
+				for _, o := range decodes {
+					if ssa.Instruction(o) == in && o != d {
+						return true
+					}
+				}
+				return false
+			}, nil)
+			n++
+			c.check(!later, rule, "rest of "+calleeName(&d.Call)+" in "+fnName(fn), pos(d), "the remaining bytes are dropped only by the last decode", "the bytes remaining after this decode are dropped although decoding continues: the next field is read from a stale position (e.g. a shadowed buffer variable in a loop)")
+		}
+	}
+	return n
 }
